@@ -8,7 +8,7 @@ CONSTANTS NV = 5
           MaxId = 2
           MaxSigns = 4
           NWho = 1
-          Rich = TRUE
+          Rich = FALSE
           EmitOn = TRUE
 VIEW View
 CONSTRAINT Bound
